@@ -88,6 +88,12 @@ var properties = map[string]*Property{}
 
 func register(p *Property) { properties[p.ID] = p }
 
+// late registrations (rules appended to a property declared in another file) run after all init functions.
+var lateInits []func()
+
+func late(f func()) bool { lateInits = append(lateInits, f); return true }
+
+
 // Known findings ---------------------------------------------------------------------------
 
 type KnownFinding struct {
